@@ -81,7 +81,7 @@ sort_unstable_slice_(roots);
 //@loop 1
         invariant
             0 <= iter__1.pos@ <= iter__1.seq@.len(), iter__1.seq@ == bm_seq(t.deleted),
-            wb_deleted(v0, wtxn.view(), self.index, t.deleted, iter__1.seq@, iter__1.pos@),
+            wb_deleted(v0, wtxn.view(), self.index, t.deleted, iter__1.seq@, iter__1.pos@), v0 == old(wtxn).view(),
             roots@ == r1, tmp_nodes.tv() == t, tmp_nodes.rm() == Map::<u32, u32>::empty(),
         ensures
             iter__1.pos@ == iter__1.seq@.len(),
@@ -107,7 +107,8 @@ sort_unstable_slice_(roots);
 //@loop 2
         invariant
             0 <= iter__2.pos@ <= iter__2.seq@.len(),
-            wb_put(v1, wtxn.view(), self.index, iter__2.seq@, iter__2.pos@),
+            wb_put(v1, wtxn.view(), self.index, iter__2.seq@, iter__2.pos@), v0 == old(wtxn).view(),
+            same_except(v0, v1, self.index, true, false, false, false), same_except(v0, wtxn.view(), self.index, true, false, false, false),
             roots@ == r1, tmp_nodes.tv() == t, tmp_nodes.rm() == Map::<u32, u32>::empty(),
             remap_ok(t, Map::<u32, u32>::empty()) ==> (forall|m: TM| #![trigger fold_puts(m, iter__2.seq@)] fold_puts(m, iter__2.seq@) == overlay(m, t, Map::<u32, u32>::empty())),
         ensures
@@ -115,7 +116,13 @@ sort_unstable_slice_(roots);
 //@loopstart 2
             let ghost vc = wtxn.view(); let ghost q2 = iter__2.pos@ - 1;
 //@loopend 2
-            proof { lemma_wb_put_step(v1, vc, wtxn.view(), self.index, iter__2.seq@, q2, item_id, item_bytes.aval()); }
+            proof {
+                lemma_wb_put_step(v1, vc, wtxn.view(), self.index, iter__2.seq@, q2, item_id, item_bytes.aval());
+                let vd = wtxn.view(); let i = self.index;
+                assert(same_except(v0, vd, i, true, false, false, false)) by {
+                    assert forall|k: AKey| !(k.index == i && k.kind == NodeMode::Tree) implies (#[trigger] v0.contains_key(k) == vd.contains_key(k) && (v0.contains_key(k) ==> v0[k] == vd[k])) by { assert(v0.contains_key(k) == v1.contains_key(k)); }
+                }
+            }
 //@hint before#2 <<<Ok(())>>>
         proof {
             let v2 = wtxn.view(); let i = self.index;
@@ -127,14 +134,7 @@ sort_unstable_slice_(roots);
             }
             lemma_dift_finish(v0, v2, i, r0, rk, r1, p, t, d, cap);
         }
-//@spec
-    requires
-        forest(tmap(old(wtxn).view(), self.index), old(roots)@),
-        tree_keys_ok(old(wtxn).view(), self.index),
-        cap_of(options, self.dimensions) >= 1,
-    ensures
-        r is Ok ==> dift_post(old(wtxn).view(), final(wtxn).view(), self.index, old(roots)@, final(roots)@, to_delete@, cap_of(options, self.dimensions)),
-        r matches Err(e) ==> build_err(e),
+//@specfile lib/contracts/delete_items_from_trees.spec
 //@end
 
 //@extract src/writer.rs | impl<D: Distance> Writer<D> | delete_tree
@@ -202,13 +202,7 @@ sort_unstable_slice_(roots);
             let ghost va = wtxn.view(); let ghost ra = roots@;
 //@loopend 0
             proof { lemma_extra_step(v0, va, wtxn.view(), self.index, r0, ra, roots@); }
-//@spec
-    requires
-        forest(tmap(old(wtxn).view(), self.index), old(roots)@),
-        tree_keys_ok(old(wtxn).view(), self.index),
-    ensures
-        r is Ok ==> extra_post(old(wtxn).view(), final(wtxn).view(), self.index, old(roots)@, final(roots)@, target_n_trees),
-        r matches Err(e) ==> build_err(e),
+//@specfile lib/contracts/delete_extra_trees.spec
 //@end
 }
 
